@@ -11,6 +11,9 @@ if [ ! -d "$wt" ]; then
   git -C /repo worktree add -q --detach "$wt" HEAD || exit 3
   git -C "$wt" apply "$patch" || { echo "patch does not apply"; exit 3; }
 fi
+# cargo freshness is mtime based: make sure every source of this tree is newer than any artefact
+# built from a previously evaluated tree
+find "$wt" -name target -prune -o \( -name "*.rs" -o -name Cargo.toml \) -print0 | xargs -0 touch
 export VERIF_CACHE_TAG=_seed
 export VERIF_EVIDENCE_DIR=/verif/.cache/evidence_seed
 # seed slots start as copies of the real slots (saves the dependency build)
